@@ -14,7 +14,8 @@ Theorem C10_source_decisions :
   (lim_send_request_uses_peer = true /\ lim_send_response_uses_peer = true /\ lim_send_trailers_uses_peer = true /\
    lim_recv_request_own = true /\ lim_recv_response_own = true /\ lim_recv_trailers_own = true) /\
   (qs_overhead = 32 /\ lim_default = 2 ^ 62 - 1 /\ lim_refusal_status = 431 /\ lim_refusal_send_error_propagates = true /\
-   lim_client_response_stop_code = 268 /\ lim_client_trailers_stop_code = 268 /\ lim_setting_id = 6).
+   lim_client_response_stop_code = 268 /\ lim_client_trailers_stop_code = 268 /\ lim_setting_id = 6 /\
+   lim_recv_request_decomp_code = 512 /\ lim_recv_response_decomp_code = 512 /\ lim_recv_trailers_decomp_code = 512).
 Proof. exact (conj gen_limit_operators (conj gen_limit_sources gen_limit_constants)). Qed.
 
 (* ---- T1: the size h3 computes when encoding and accumulates when decoding is the RFC 9114 4.2.2 size ---- *)
@@ -35,9 +36,9 @@ Proof. exact decode_stateless_limit. Qed.
 
 (* ---- T2: receive.  [readable bs fs] = h3 reads bs (without limit) as the field list fs ---- *)
 Theorem C10_receive_accepts_exactly_within_limit :
-  forall own ps bs fs, wf_bytes bs -> readable bs fs ->
-    (section_size fs <= own -> recv_section true own ps bs = Delivered fs) /\
-    (own < section_size fs -> exists n, own < n /\ recv_section true own ps bs = RecvTooBig n own).
+  forall c own ps bs fs, wf_bytes bs -> readable bs fs ->
+    (section_size fs <= own -> recv_section true c own ps bs = Delivered fs) /\
+    (own < section_size fs -> exists n, own < n /\ recv_section true c own ps bs = RecvTooBig n own).
 Proof. exact recv_section_exact. Qed.
 
 Theorem C10_server_answers_431_unless_it_would_not_fit :
@@ -79,7 +80,7 @@ Theorem C10_trailers_both_roles :
 Proof. exact trailers_exact. Qed.
 
 Theorem C10_oversize_is_never_a_connection_error :
-  forall own ps bs fs code, wf_bytes bs -> readable bs fs -> recv_section true own ps bs <> RecvConnError code.
+  forall c own ps bs fs code, wf_bytes bs -> readable bs fs -> recv_section true c own ps bs <> RecvConnError code.
 Proof. exact recv_never_connection_error. Qed.
 
 (* ---- T3: send, for every limit and every field list ---- *)
@@ -112,8 +113,8 @@ Proof. exact over_limit_is_refused_unwritten. Qed.
 (* ---- non-vacuity: the boundary, both sides ---- *)
 Example C10_boundary_inhabited :
   (* :method GET alone has size 7 + 3 + 32 = 42 *)
-  recv_section true 42 None [0; 0; 209] = Delivered [([58; 109; 101; 116; 104; 111; 100], [71; 69; 84])] /\
-  recv_section true 41 None [0; 0; 209] = RecvTooBig 42 41 /\
+  recv_section true 512 42 None [0; 0; 209] = Delivered [([58; 109; 101; 116; 104; 111; 100], [71; 69; 84])] /\
+  recv_section true 512 41 None [0; 0; 209] = RecvTooBig 42 41 /\
   ro_written (server_recv_request 41 (Some (Some 42)) [0; 0; 209]) = Some refusal_section /\
   ro_written (server_recv_request 41 (Some (Some 41)) [0; 0; 209]) = None /\
   send_response 0 (Some (Some 42)) refusal_fields = Sent refusal_section /\
